@@ -38,7 +38,7 @@ TABLE = {
         "DESIGN.md §5 C05",
     ),
     "C06": (
-        "exhaustive grid + PBT: closed-form oracle (count, bounds, sum) for partition_volume and for the A/D pairs of real transfers",
+        "exhaustive grid + PBT + coverage-guided fuzzing (atheris, thorough): closed-form oracle (count, bounds, sum) for partition_volume and for the A/D pairs of real transfers",
         "partition_volume is evaluated on a dense enumerated (volume, max_volume) grid incl. exact multiples, +-0.01 and nextafter neighbours and non-integer max_volume; real transfers on both devices are decoded and each requested triple must appear as exactly ceil(v/M) pairs with 0<step<=M summing to v; auto_split=False must raise InvalidOperationError; R records never plan more multi-dispenses than fit. Exploration with an exhaustively enumerated finite grid.",
         "Step-count rule evaluated in rationals with a 1e-12 relative slack at exact multiples.",
         "DESIGN.md §5 C06",
@@ -110,13 +110,13 @@ TABLE = {
         "DESIGN.md §5 C17",
     ),
     "C18": (
-        "PBT + small exhaustive sub-space: multiset/ordering validity predicate over partition_by_column output; truth table of optimize_partition_by",
+        "PBT + small exhaustive sub-space + coverage-guided fuzzing (atheris, thorough): multiset/ordering validity predicate over partition_by_column output; truth table of optimize_partition_by",
         "Generated triple lists (ties, repeats, rows A..Z, columns 1..99): output triples == input as multiset, one column per group on the partition side, groups ascending by column, rows non-decreasing; optimize_partition_by: full truth table for trough/plate x mode, invalid names raise ValueError. Exhaustive for all lists of length <=3 over a 2x3 grid.",
         "Validity predicate (many correct outputs for ties).",
         "DESIGN.md §5 C18",
     ),
     "C19": (
-        "exhaustive enumeration of (n, len, representation) against the closed formula result[i] = F[i mod len]",
+        "exhaustive enumeration of (n, len, representation) + PBT + coverage-guided fuzzing (atheris, thorough) against the closed formula result[i] = F[i mod len]",
         "n in 0..260 x len 1..26 x 5 representations enumerated completely (quick: n<=80), plus generated 2-D grids with large n, invalid n and empty collections. Exhaustive over the stated finite space.",
         "Column-major flattening implemented with explicit loops in the harness.",
         "DESIGN.md §5 C19",
